@@ -16,7 +16,7 @@ RULE = ("seeded (grammar | PDA) x (Regex | DFA | NFA | epsilon-NFA, incl. determ
         "with (bounded language of the source) intersect (exact reference language of the automaton); other "
         "operand types must raise NotImplementedError; non-trivial = intersection (<=4) non-empty and smaller "
         "than the source language; distinct = (pair digest, order signature)")
-ASSUMPTIONS = ["bounded comparison: words of length <= 4", "variable and terminal value sets are disjoint"]
+ASSUMPTIONS = ["bounded comparison: words of length <= 4", "variable and terminal symbol sets are disjoint; in part of the cases one variable and one terminal carry the same value"]
 N = 4
 
 
